@@ -1,8 +1,121 @@
 package main
 
-import "fmt"
+// Debug helper: print the abstract paths of a rewriter function.
+//   gocoverif dump [--repo DIR] <Type|-> <func> [param=spec ...] [field:name=spec ...] [noblock]
+// spec: Kind (ast node kind, e.g. IfStmt) | nil | true | false | nn | sym | tok:BREAK
+
+import (
+	"fmt"
+	"os"
+	"sort"
+	"strings"
+
+	"golang.org/x/tools/go/ssa"
+)
 
 func cmdDump(args []string) int {
-	fmt.Println("no dumps yet")
+	repo := "/repo"
+	if len(args) >= 2 && args[0] == "--repo" {
+		repo = args[1]
+		args = args[2:]
+	}
+	if len(args) < 2 {
+		fmt.Println("usage: dump <Type|-> <func> [param=spec...]")
+		return 2
+	}
+	w, err := loadWorld(repo, nil)
+	if err != nil {
+		fmt.Println(err)
+		return 2
+	}
+	c := newCtx("dump", "quick", 0, w)
+	r := newRwRT(c)
+	var fn *ssa.Function
+	if args[0] == "-" {
+		fn = w.Func(pathRw, args[1])
+	} else if args[0] == "seq" {
+		fn = w.Func(pathSeq, args[1])
+	} else {
+		fn = w.Method(pathRw, args[0], args[1])
+	}
+	spec := map[string]string{}
+	fields := map[string]AV{}
+	blockOr := true
+	parse := func(name, sp string) AV {
+		switch {
+		case sp == "nil":
+			return Nil{}
+		case sp == "true":
+			return mkBool(true)
+		case sp == "false":
+			return mkBool(false)
+		case sp == "nn":
+			return Sym{Name: name, NN: true}
+		case sp == "sym":
+			return Sym{Name: name}
+		case strings.HasPrefix(sp, "tok:"):
+			return r.tokConst(sp[4:])
+		case strings.HasPrefix(sp, "int:"):
+			var n int64
+			fmt.Sscan(sp[4:], &n)
+			return mkInt(n)
+		default:
+			return r.node(sp, name)
+		}
+	}
+	for _, a := range args[2:] {
+		if a == "noblock" {
+			blockOr = false
+			continue
+		}
+		kv := strings.SplitN(a, "=", 2)
+		if len(kv) != 2 {
+			continue
+		}
+		if strings.HasPrefix(kv[0], "field:") {
+			n := strings.TrimPrefix(kv[0], "field:")
+			fields[n] = parse(n, kv[1])
+		} else {
+			spec[kv[0]] = kv[1]
+		}
+	}
+	var av []AV
+	for _, p := range fn.Params {
+		if sp, ok := spec[p.Name()]; ok {
+			av = append(av, parse(p.Name(), sp))
+		} else {
+			av = append(av, Sym{Name: p.Name(), NN: true})
+		}
+	}
+	in := r.interp(rwConfig{root: fn, blockOracles: blockOr})
+	in.Fields = fields
+	func() {
+		defer func() {
+			if e := recover(); e != nil {
+				fmt.Fprintln(os.Stderr, "error:", e)
+			}
+		}()
+		outs := in.Run(nil, fn, av, nil)
+		var lines []string
+		for _, o := range outs {
+			s := pathSummary(o)
+			if !o.Panicked && len(o.Ret) > 0 {
+				var rs []string
+				for _, x := range o.Ret {
+					rs = append(rs, o.St.Render(x))
+				}
+				s += "  => " + strings.Join(rs, ", ")
+			}
+			if o.St.Truncated {
+				s += " (truncated)"
+			}
+			lines = append(lines, s)
+		}
+		sort.Strings(lines)
+		for _, l := range lines {
+			fmt.Println(" ", l)
+		}
+		fmt.Printf("%d paths, %d steps\n", len(outs), in.Steps)
+	}()
 	return 0
 }
